@@ -57,6 +57,19 @@ func c06Payload(c *engine.Case, cmd *spec.Command, b []byte) {
 			return
 		}
 	}
+	// the same bytes decoded into a value that last decoded their bit-wise complement: what a decoder
+	// yields is a function of the bytes
+	if used, _, err := lorawan.GetMACPayloadAndSize(cmd.Uplink, lorawan.CID(cmd.CID)); err == nil {
+		inv := make([]byte, len(b))
+		for i := range b {
+			inv[i] = ^b[i]
+		}
+		used.UnmarshalBinary(inv)
+		if err := used.UnmarshalBinary(b); err != nil || deepPrint(used) != deepPrint(pl) {
+			c.Fail("decode/"+cmd.Name+"/into-used-value", fmt.Sprintf("%s bytes %x decoded into a value that decoded %x before: %s (err %v); into a new value: %s", cmd.Name, b, inv, deepPrint(used), err, deepPrint(pl)), nil)
+			return
+		}
+	}
 	// value -> bytes for the decoded tuple: canonical bytes (RFU zero)
 	canon, ok := spec.EncodeFields(cmd.Fields, cmd.Size, want)
 	if !ok {
